@@ -22,7 +22,7 @@ CONSTANTS
   InsSet <- InsSmall
   MinEdits = 0
   Randomised = FALSE
-  DumpMod = 47
+  DumpMod = 79
   NRepl = 17
   RichOnly = TRUE
   NeedStruct = FALSE
